@@ -67,7 +67,7 @@ def main():
     # run our check against it
     rc, out = sh(f"git -C /repo apply {patch}")
     try:
-        rc, out = sh(f"./bin/check {pid} 2>&1 | grep -v conda", cwd=ROOT, timeout=3600)
+        rc, out = sh(f"VERIF_EVIDENCE_DIR={ROOT}/.work/seed_evidence ./bin/check {pid} 2>&1 | grep -v conda", cwd=ROOT, timeout=3600)
         viol = [l for l in out.splitlines() if l.startswith("VIOLATION")]
         res["check_cmd"] = f"git -C /repo apply seeded/{pid}/patch.diff && ./bin/check {pid}; git -C /repo checkout -- ."
         res["check_caught"] = bool(viol)
